@@ -22,6 +22,8 @@ mod pyref;
 mod stats;
 
 static PANICS: std::sync::atomic::AtomicUsize = std::sync::atomic::AtomicUsize::new(0);
+/// microseconds every validity query sleeps (the slow-checker scenarios of C06 set it; 0 otherwise)
+static DELAY_US: std::sync::atomic::AtomicU64 = std::sync::atomic::AtomicU64::new(0);
 type S = RealVectorState;
 type SP = RealVectorStateSpace;
 
@@ -38,6 +40,8 @@ impl World {
 impl StateValidityChecker<S> for World {
     fn is_valid(&self, s: &S) -> bool {
         let v = self.free(s.values[0], s.values[1]);
+        let dl = DELAY_US.load(std::sync::atomic::Ordering::Relaxed);
+        if dl > 0 { std::thread::sleep(Duration::from_micros(dl)); }
         self.log.lock().unwrap().push((s.values[0], s.values[1], v));
         v
     }
@@ -281,6 +285,31 @@ fn fam_origin(o: &mut Out, props: &str, seed0: u64, deadline: Instant) {
             inst.setup(pdx.clone(), w.clone());
             if let Ok(path) = inst.solve(Duration::from_millis(200)) {
                 check_path(o, props, &format!("around the origin, long step {:?}", pl), seed, &sp, &w, &pdx, &path, Inst::limit(pl, 2.5, 3.0));
+            }
+        }
+    }
+}
+
+/// "no limit" budgets: Duration::MAX and other huge limits are well-formed inputs (C08: no panic; C02 etc. on the answer)
+fn fam_huge_budget(o: &mut Out, props: &str, seed0: u64) {
+    let sp = space();
+    for (pi, pl) in planners().into_iter().enumerate() {
+        for (bi, budget) in [Duration::MAX, Duration::from_secs(u64::MAX / 2), Duration::from_secs(1u64 << 40)].into_iter().enumerate() {
+            let seed = seed0.wrapping_mul(1000) + 81_000 + pi as u64 * 3 + bi as u64;
+            let w = world(3);
+            let pdx = pd(&sp, (1.0, 1.0), (8.0, 8.0), 0.8);
+            let (tx, rx) = std::sync::mpsc::channel();
+            let (w2, pdx2) = (w.clone(), pdx.clone());
+            std::thread::spawn(move || {
+                let mut inst = Inst::new(pl, 0.8, 1.6, 0.2, seed);
+                inst.setup(pdx2, w2);
+                let _ = tx.send(inst.solve(budget));
+            });
+            let scen = format!("huge time limit {:?} {:?}", pl, budget);
+            match rx.recv_timeout(Duration::from_secs(20)) {
+                Ok(Ok(path)) => check_path(o, props, &scen, seed, &sp, &w, &pdx, &path, Inst::limit(pl, 0.8, 1.6)),
+                Ok(Err(_)) => {}       // (a panic has been counted by Inst::solve; an error is reported by the C08 / C06 oracles only when it is a panic)
+                Err(_) => { if props == "all" || props == "C06" { o.report(&scen, seed, "solve in an obstacle-free world had not returned after 20 s".into()); } }
             }
         }
     }
@@ -554,9 +583,14 @@ impl StateSpace for CountSpace {
 }
 fn fam_bias(o: &mut Out, seed0: u64) {
     use std::sync::atomic::Ordering::SeqCst;
+    // `late`: the planner is built with the opposite bias and the public field `goal_bias` is assigned afterwards -- the bias in
+    // force is the configured one, i.e. the value of the field when solve runs
+    for late in [false, true] {
     for which in 0..3u8 {
         for bias in [0.0f64, 1.0] {
             for wk in [1u64, 3, 4] {
+                if late && wk != 3 { continue; }
+                let b0 = if late { 1.0 - bias } else { bias };
                 let sp = Arc::new(CountSpace { inner: RealVectorStateSpace::new(2, Some(vec![(0.0, 10.0), (0.0, 10.0)])).unwrap(), n: Default::default() });
                 let goal = Arc::new(CountGoal { inner: DiscGoal { c: (9.0, 9.0), r: 0.4 }, n: Default::default() });
                 let pdx = Arc::new(ProblemDefinition { space: sp.clone(), start_states: vec![RealVectorState::new(vec![1.0, 1.0])], goal: goal.clone() });
@@ -565,13 +599,38 @@ fn fam_bias(o: &mut Out, seed0: u64) {
                 let name;
                 let setup_goal_calls;
                 match which {
-                    0 => { name = "Rrt"; let mut p: RRT<S, CountSpace, CountGoal> = RRT::new(0.6, bias, &cfg); p.setup(pdx.clone(), vc); setup_goal_calls = goal.n.load(SeqCst); let _ = p.solve(Duration::from_millis(150)); }
-                    1 => { name = "Star"; let mut p: RRTStar<S, CountSpace, CountGoal> = RRTStar::new(0.6, bias, 1.0, &cfg); p.setup(pdx.clone(), vc); setup_goal_calls = goal.n.load(SeqCst); let _ = p.solve(Duration::from_millis(150)); }
-                    _ => { name = "Connect"; let mut p: RRTConnect<S, CountSpace, CountGoal> = RRTConnect::new(0.6, bias, &cfg); p.setup(pdx.clone(), vc); setup_goal_calls = goal.n.load(SeqCst); let _ = p.solve(Duration::from_millis(150)); }
+                    0 => { name = "Rrt"; let mut p: RRT<S, CountSpace, CountGoal> = RRT::new(0.6, b0, &cfg); p.goal_bias = bias; p.setup(pdx.clone(), vc); setup_goal_calls = goal.n.load(SeqCst); let _ = p.solve(Duration::from_millis(150)); }
+                    1 => { name = "Star"; let mut p: RRTStar<S, CountSpace, CountGoal> = RRTStar::new(0.6, b0, 1.0, &cfg); p.goal_bias = bias; p.setup(pdx.clone(), vc); setup_goal_calls = goal.n.load(SeqCst); let _ = p.solve(Duration::from_millis(150)); }
+                    _ => { name = "Connect"; let mut p: RRTConnect<S, CountSpace, CountGoal> = RRTConnect::new(0.6, b0, &cfg); p.goal_bias = bias; p.setup(pdx.clone(), vc); setup_goal_calls = goal.n.load(SeqCst); let _ = p.solve(Duration::from_millis(150)); }
                 }
                 let (g, u) = (goal.n.load(SeqCst) - setup_goal_calls, sp.n.load(SeqCst));
                 if bias == 0.0 && g > 0 { o.report(&format!("goal bias 0 {} world{}", name, wk), seed0 + 5, format!("the goal sampler was called {} times during solve with goal_bias = 0", g)); }
                 if bias == 1.0 && u > 0 { o.report(&format!("goal bias 1 {} world{}", name, wk), seed0 + 5, format!("the space sampler was called {} times with goal_bias = 1", u)); }
+            }
+        }
+    }
+    }
+}
+
+/// parameters assigned through the planners' public fields after construction are the configured ones (C05: step / radius)
+fn fam_fields(o: &mut Out, props: &str, seed0: u64) {
+    let sp = space();
+    for (pi, pl) in planners().into_iter().enumerate() {
+        for wk in [0u64, 3] {
+            let seed = seed0.wrapping_mul(1000) + 80_000 + pi as u64 * 2 + wk;
+            let w = world(wk);
+            let pdx = pd(&sp, (1.0, 1.0), (9.0, 8.5), 0.5);
+            let cfg = PlannerConfig { seed: Some(seed) };
+            let (step, radius) = (0.4, 0.9);
+            let mut inst = match pl {
+                Pl::Rrt => { let mut p = RRT::new(3.0, 0.1, &cfg); p.max_distance = step; Inst::Rrt(p) }
+                Pl::Connect => { let mut p = RRTConnect::new(3.0, 0.1, &cfg); p.max_distance = step; Inst::Connect(p) }
+                Pl::Star => { let mut p = RRTStar::new(3.0, 0.1, 4.0, &cfg); p.max_distance = step; p.search_radius = radius; Inst::Star(p) }
+                Pl::Prm => { let mut p = PRM::new(0.25, 4.0, &cfg); p.connection_radius = radius; Inst::Prm(p) }
+            };
+            inst.setup(pdx.clone(), w.clone());
+            if let Ok(path) = inst.solve(Duration::from_millis(500)) {
+                check_path(o, props, &format!("parameters assigned through the public fields {:?} world{}", pl, wk), seed, &sp, &w, &pdx, &path, Inst::limit(pl, step, radius));
             }
         }
     }
@@ -849,6 +908,44 @@ fn fam_deadline(o: &mut Out, seed0: u64) {
             }
         }
     }
+    // the infeasible worlds the property names: goal sealed off, goal region entirely invalid, start sealed in (the start itself
+    // is valid, no motion from it is); time limits 0 and 60 ms; and once more with a checker that takes 2 ms per query, where
+    // "T plus one planning iteration" is far below a second but a clock that is read only now and then is not
+    let cell = 1e-12;
+    let worlds: Vec<(&str, Vec<(f64, f64, f64, f64)>)> = vec![
+        ("goal sealed off", vec![(7.5, 7.8, 7.5, 11.0), (7.5, 11.0, 7.5, 7.8)]),
+        ("goal region entirely invalid", vec![(8.0, 10.0, 8.0, 10.0)]),
+        ("start sealed in", vec![(-1.0, 1.0 - cell, -1.0, 11.0), (1.0 + cell, 11.0, -1.0, 11.0), (-1.0, 11.0, -1.0, 1.0 - cell), (-1.0, 11.0, 1.0 + cell, 11.0)]),
+    ];
+    for (slow, limit_ms, bound_ms) in [(0u64, 0u64, 3000u64), (0, 60, 3000), (2000, 100, 1500)] {
+        for (name, boxes) in worlds.iter() {
+            for pl in planners() {
+                if slow > 0 && pl == Pl::Prm { continue; }      // (roadmap construction has its own budget; covered by the runs above)
+                let w = Arc::new(World { boxes: boxes.clone(), log: Mutex::new(vec![]) });
+                let pdx = pd(&sp, (1.0, 1.0), (9.0, 9.0), 0.5);
+                let (tx, rx) = std::sync::mpsc::channel();
+                let seed = seed0.wrapping_mul(1000) + 70_000 + limit_ms;
+                std::thread::spawn(move || {
+                    let mut inst = Inst::new(pl, 0.5, 0.6, 0.1, seed);
+                    inst.setup(pdx.clone(), w.clone());
+                    DELAY_US.store(slow, std::sync::atomic::Ordering::SeqCst);
+                    let t0 = Instant::now();
+                    let r = inst.solve(Duration::from_millis(limit_ms));
+                    let el = t0.elapsed();
+                    DELAY_US.store(0, std::sync::atomic::Ordering::SeqCst);
+                    let _ = tx.send((el, r.is_ok()));
+                });
+                let scen = format!("deadline {:?} {}{} limit {} ms", pl, name, if slow > 0 { ", 2 ms per validity query" } else { "" }, limit_ms);
+                match rx.recv_timeout(Duration::from_secs(8)) {
+                    Ok((el, ok)) => {
+                        if ok { o.report(&scen, seed, "a path was returned although no valid path to the goal exists".into()); }
+                        if el > Duration::from_millis(bound_ms) { o.report(&scen, seed, format!("solve returned after {:?}", el)); }
+                    }
+                    Err(_) => { DELAY_US.store(0, std::sync::atomic::Ordering::SeqCst); o.report(&scen, seed, "solve had not returned after 8 s".into()); }
+                }
+            }
+        }
+    }
 }
 
 fn main() {
@@ -872,14 +969,16 @@ fn main() {
             // the scripted-roadmap reference (exact link rule, reference BFS) also exposes wrong start connections / over-long first edges
             if prop == "C18" || prop == "C05" || prop == "C02" || prop == "C03" { fam_prm_reference(&mut o, seed); }
             if prop == "C18" || prop == "C05" { fam_prm_gap(&mut o, seed); }
+            if prop == "C05" || prop == "C15" { fam_fields(&mut o, &p, seed); }
             if prop == "C18" || prop == "C01" || prop == "C15" { fam_prm_dense(&mut o, seed); }
+            if prop == "C08" || prop == "C06" || prop == "C02" { fam_huge_budget(&mut o, &p, seed); }
             fam_histories(&mut o, &p, seed, half);
             fam_paths(&mut o, &p, seed, deadline);
             fam_star_dense(&mut o, &p, seed, deadline + Duration::from_secs_f64(budget / 3.0));
             fam_connect_dense(&mut o, &p, seed, deadline + Duration::from_secs_f64(budget / 2.5));
             fam_origin(&mut o, &p, seed, deadline + Duration::from_secs_f64(budget / 2.0));
             let n = PANICS.load(std::sync::atomic::Ordering::SeqCst);
-            if n > 0 && (prop == "C08" || prop == "C15" || prop == "C02") { o.report("panic", seed, format!("{} planner call(s) on well-formed inputs panicked", n)); }
+            if n > 0 && (prop == "C08" || prop == "C15" || prop == "C02" || prop == "C06") { o.report("panic", seed, format!("{} planner call(s) on well-formed inputs panicked", n)); }
         }
         "C09" | "C10" | "C11" | "C12" | "C13" => {
             let mut r = spaces::Rep { n: 0 };
